@@ -25,8 +25,9 @@ from harness.vlib.core import LEAN, PY, REPO, Ctx, ToolFailure, repo_env
 from harness.c15 import gen
 
 HERE = os.path.dirname(os.path.abspath(__file__))
-MODEL_FILES = ["MypyVerif/Model/CSem.lean", "MypyVerif/Model/Tagged.lean",
-               "MypyVerif/Proofs/CFast.lean", "MypyVerif/Gen/CFast.lean"]
+MODEL_FILES = ["MypyVerif/Model/CSem.lean", "MypyVerif/Model/Tagged.lean", "MypyVerif/Model/FixedWidth.lean",
+               "MypyVerif/Proofs/CFast.lean", "MypyVerif/Proofs/CFastW.lean", "MypyVerif/Proofs/FixedWidth.lean",
+               "MypyVerif/Gen/CFast.lean"]
 WIDTH = {"i64": 64, "i32": 32, "i16": 16, "u8": 8}
 RANGES = gen.RANGES
 TAG_MIN, TAG_MAX = -2 ** 62, 2 ** 62 - 1
@@ -83,6 +84,18 @@ def rand_float(rng) -> float:
     if r < 0.8:
         return rng.choice(boundary_floats())
     return rng.uniform(-1000, 1000)
+
+
+def show(v) -> str:
+    """Operand for messages (replay files keep the exact value)."""
+    r = repr(v)
+    if isinstance(v, int) and not isinstance(v, bool) and len(r) > 40:
+        return "%s…%s(%d digits)" % (r[:10], r[-4:], len(r.lstrip("-")))
+    return r
+
+
+def show_args(args) -> str:
+    return "(" + ", ".join(show(a) for a in args) + ")"
 
 
 def enc_arg(v):
@@ -341,9 +354,31 @@ def signed(w: int, bits: int) -> int:
     return w - 2 ** bits if w >= 2 ** (bits - 1) else w
 
 
+OPNAME = {"+": "add", "-": "sub", "*": "mul", "&": "and", "|": "or", "^": "xor", "<<": "shl", ">>": "shr"}
+CMP = {"<", "<=", ">", ">=", "==", "!="}
+
+
+CMP_INLINE = {"<": "CPyTagged_IsLt", "<=": "CPyTagged_IsLe", ">": "CPyTagged_IsGt", ">=": "CPyTagged_IsGe",
+              "==": "CPyTagged_IsEq", "!=": "CPyTagged_IsNe"}
+
+
+def model_lines(fn: gen.Fn, args: list, tables: dict) -> list[tuple[str, str]]:
+    one = model_line(fn, args, tables)
+    out = [one] if one is not None else []
+    if one is not None and one[1] == "M:cmp":
+        # the header's inline comparison functions are not what compiled comparisons use, but they are
+        # translated and proved: keep them tied to the same observations
+        out.append(("F %s %d %d" % (CMP_INLINE[fn.op], tag_word(args[0], 0), tag_word(args[1], 1)), CMP_INLINE[fn.op]))
+    return out
+
+
 def model_line(fn: gen.Fn, args: list, tables: dict) -> tuple[str, str] | None:
-    """(driver line, C function) for a case the translated C functions decide, else None."""
-    if fn.group == "int" and len(fn.params) >= 1 and all(p == "int" for p in fn.params):
+    """(driver line, kind) for a case the Lean side decides, else None.  kind = a translated C function
+    (`F` lines, Gen/CFast.lean) or `M:<what>` (hand model of the Python-side lowering, Model/FixedWidth.lean)."""
+    g, t = fn.group, fn.ftype
+    if g == "int" and all(p == "int" for p in fn.params) and not fn.stmts and fn.op in CMP:
+        return "M cmp %s %d %d" % (fn.op, tag_word(args[0], 0), tag_word(args[1], 1)), "M:cmp"
+    if g == "int" and len(fn.params) >= 1 and all(p == "int" for p in fn.params):
         if len(fn.params) == 2:
             c = tables["binary"].get(fn.op + ("=" if fn.stmts else ""))
         else:
@@ -351,22 +386,86 @@ def model_line(fn: gen.Fn, args: list, tables: dict) -> tuple[str, str] | None:
         if c in PY_SPEC:
             ws = [tag_word(a, i) for i, a in enumerate(args)]
             return "F %s %s" % (c, " ".join(map(str, ws))), c
-    if fn.group == "fixed" and (fn.op, fn.ftype) in FW_DIV and len(fn.params) == 2:
-        c = FW_DIV[(fn.op, fn.ftype)]
-        w = WIDTH[fn.ftype]
-        return "F %s %d %d" % (c, args[0] % 2 ** w, args[1] % 2 ** w), c
+        return None
+    if g in ("fixed", "fixedconst") and all(p == t for p in fn.params):
+        w = WIDTH[t]
+        sg = 0 if t == "u8" else 1
+        m = 2 ** w
+        a = args[0] % m
+        b = (args[1] if len(args) > 1 else fn.const)
+        if g == "fixed" and (fn.op, t) in FW_DIV and len(fn.params) == 2:
+            return "F %s %d %d" % (FW_DIV[(fn.op, t)], a, b % m), FW_DIV[(fn.op, t)]
+        if fn.op in ("//", "%") and t == "u8" and b is not None:
+            return "M %s %d %d" % ("u8div" if fn.op == "//" else "u8mod", a, b % m), "M:res"
+        if g == "fixedconst" and fn.op in ("//", "%") and b not in (0, -1):
+            return "M %s %d %d %d" % ("idiv" if fn.op == "//" else "imod", w, a, b % m), "M:val"
+        if fn.op in ("<<", ">>") and not (0 <= b < w):
+            return None            # outside the domain (and C leaves it undefined)
+        if fn.op in OPNAME and b is not None and fn.ret == t:
+            return "M op %d %d %s %d %d" % (w, sg, OPNAME[fn.op], a, b % m), "M:val"
+        if fn.op == "neg":
+            return "M neg %d %d" % (w, a), "M:val"
+        if fn.op == "inv":
+            return "M inv %d %d" % (w, a), "M:val"
+        return None
+    if g == "conv" and fn.op == "conv" and fn.params == ["int"]:
+        src = tag_word(args[0], 0)
+        if t == "i64":
+            return "M toI64 %d" % src, "M:res"
+        return "M toNarrow %d %d %d" % (WIDTH[t], 0 if t == "u8" else 1, src), "M:res"
+    if g == "conv" and fn.op == "back":
+        w = WIDTH[t]
+        if t == "i64":
+            return "M i64ToInt %d" % (args[0] % 2 ** 64), "M:tagged"
+        return "M narrowToInt %d %d %d" % (w, 0 if t == "u8" else 1, args[0] % 2 ** w), "M:tagged"
     return None
 
 
-def check_model(fn: gen.Fn, args: list, cfunc: str, out: str) -> tuple[str | None, str | None]:
+def fw_value(word: int, t: str) -> int:
+    return word if t == "u8" else signed(word, WIDTH[t])
+
+
+def check_model(fn: gen.Fn, args: list, kind: str, out: str) -> tuple[str | None, str | None]:
     """-> (problem with the model's answer w.r.t. Python's exact result or None,
-           the compiled result the model predicts (worker format) or None when it makes no prediction)."""
+           the compiled result the model predicts (worker format; `exc * -` = some exception) or None when it
+           makes no prediction)."""
     body, _, ub = out.rpartition(" ub=")
     if ub != "0":
         return "model executes an undefined C operation (ub=1)", None
     parts = body.split(" ")
+    if parts[0].startswith("bad") or parts[0] == "unknown-function":
+        return "driver: " + body, None
+    t = fn.ftype
+    if kind == "M:cmp":
+        if parts[0] == "slow":
+            return None, None
+        exact = PY_SPEC_CMP[fn.op](*args)
+        got = parts[1] == "1"
+        return (None if got == exact else "model of compare_tagged returns %r, Python computes %r" % (got, exact)), "ok bool %s" % got
+    if kind == "M:val":
+        return None, "ok int %d" % fw_value(int(parts[1]), t)
+    if kind == "M:tagged":
+        if parts[0] == "slow":
+            return None, None
+        w = int(parts[1])
+        if w % 2:
+            return "model returns a word with the tag bit set", None
+        got = untag(w)
+        return (None if got == args[0] else "model converts %d to %d" % (args[0], got)), "ok int %d" % got
+    if kind == "M:res":
+        if parts[0] == "slow":
+            return None, None
+        if parts[0] == "raise":
+            if fn.op == "conv":
+                return (None if not in_range(args[0], t) else "model rejects the in-range value %d" % args[0]), "exc * -"
+            return None, "exc %s -" % parts[1]
+        v = fw_value(int(parts[1]), t)
+        if fn.op == "conv" and v != args[0]:
+            return "model converts %d to %d" % (args[0], v), "ok int %d" % v
+        return None, "ok int %d" % v
+    cfunc = kind
     if cfunc.startswith("CPyInt"):
-        w = WIDTH[fn.ftype]
+        w = WIDTH[t]
         try:
             exact: object = (args[0] // args[1]) if fn.op == "//" else (args[0] % args[1])
         except ZeroDivisionError:
@@ -374,18 +473,20 @@ def check_model(fn: gen.Fn, args: list, cfunc: str, out: str) -> tuple[str | Non
         if parts[0] == "raise":
             if exact == "ZeroDivisionError":
                 return (None if parts[1] == "ZeroDivisionError" else "model raises %s" % parts[1]), "exc %s -" % parts[1]
-            if isinstance(exact, int) and in_range(exact, fn.ftype):
+            if isinstance(exact, int) and in_range(exact, t):
                 return "model raises %s although the exact result %d fits" % (parts[1], exact), "exc %s -" % parts[1]
             return None, "exc %s -" % parts[1]
         if parts[0] == "fast":
             v = signed(int(parts[1]), w)
             if exact == "ZeroDivisionError":
                 return "model returns %d for a zero divisor" % v, "ok int %d" % v
-            if isinstance(exact, int) and in_range(exact, fn.ftype) and v != exact:
+            if isinstance(exact, int) and in_range(exact, t) and v != exact:
                 return "model returns %d, exact result %d" % (v, exact), "ok int %d" % v
             return None, "ok int %d" % v
         return "unexpected model output %r" % out, None
     all_short = all(TAG_MIN <= a <= TAG_MAX for a in args)
+    if cfunc in ("CPyTagged_IsEq", "CPyTagged_IsNe"):
+        all_short = TAG_MIN <= args[0] <= TAG_MAX      # only the left tag is tested (a long word never equals a short one)
     if parts[0] == "slow":
         return None, None          # trusted slow path: no prediction
     if parts[0] != "fast":
@@ -408,6 +509,10 @@ def check_model(fn: gen.Fn, args: list, cfunc: str, out: str) -> tuple[str | Non
     if got != exact:
         return "model fast path returns %r, Python computes %r" % (got, exact), pred
     return None, pred
+
+
+PY_SPEC_CMP = {"<": lambda a, b: a < b, "<=": lambda a, b: a <= b, ">": lambda a, b: a > b,
+               ">=": lambda a, b: a >= b, "==": lambda a, b: a == b, "!=": lambda a, b: a != b}
 
 
 # --------------------------------------------------------------------------------------------- main
@@ -464,18 +569,18 @@ def main(ctx: Ctx) -> None:
             excluded_large += 1
             continue
         jobs.append((i, fn.name, args))
-        ml = model_line(fn, args, tables) if inv else None
-        if ml is not None:
+        for ml in (model_lines(fn, args, tables) if inv else []):
             lines.append(ml[0])
             model_idx.append((i, ml[1]))
-    model_out: dict[int, tuple[str, str]] = {}
+    model_out: dict[int, list[tuple[str, str]]] = {}
     model_ok = True
     if lines:
         try:
             outs = ctx.lean_driver("Driver/C15.lean", lines)
             if len(outs) != len(lines):
                 raise ToolFailure("driver returned %d lines for %d cases" % (len(outs), len(lines)))
-            model_out = {i: (c, o) for (i, c), o in zip(model_idx, outs)}
+            for (i, c), o in zip(model_idx, outs):
+                model_out.setdefault(i, []).append((c, o))
         except ToolFailure as e:
             if proved:
                 raise
@@ -488,18 +593,21 @@ def main(ctx: Ctx) -> None:
 
     # 3. compare
     reported: dict[str, int] = {}
+    nshape: dict[str, int] = {}
     ndiff = 0
     model_problems = 0
     model_mismatch = 0
     for i, name, args in jobs:
         fn = cases[i][0]
         stream = cases[i][2]
-        mo = model_out.get(i)
+        mo = None
         mprob, mpred = (None, None)
-        if mo is not None:
-            mprob, mpred = check_model(fn, args, mo[0], mo[1])
-            if mprob:
-                model_problems += 1
+        for cand in model_out.get(i, []):
+            p1, p2 = check_model(fn, args, cand[0], cand[1])
+            if mo is None or (p1 and not mprob):
+                mo, mprob, mpred = cand, p1, p2
+        if mprob:
+            model_problems += 1
         for opt, res in results.items():
             ri, rc = res.get(i, ("missing - -", "missing - -"))
             if ri.startswith("skipped"):
@@ -519,27 +627,31 @@ def main(ctx: Ctx) -> None:
             if verdict == "DIFF":
                 ndiff += 1
                 obs = known_class(fn, args, ri, rc)
-                key = obs["class"] + ":" + fn.name
+                key = obs["class"] + ("/" + obs["effect"] if "effect" in obs else "") + ":" + fn.name
                 reported[key] = reported.get(key, 0) + 1
-                if reported[key] <= 1 and sum(1 for k in reported if k.startswith(obs["class"])) <= 4:
-                    ctx.report(obs, f"{fn.name}{tuple(args)!r} (`{fn.expr}`, opt level {opt}): compiled gives "
+                shape = json.dumps({k: v for k, v in obs.items() if k != "function"}, sort_keys=True)
+                if reported[key] == 1:
+                    nshape[shape] = nshape.get(shape, 0) + 1
+                if reported[key] == 1 and nshape[shape] <= 3:
+                    ctx.report(obs, f"{fn.name}{show_args(args)} (`{fn.expr}`, opt level {opt}): compiled gives "
                                f"`{rc}`, CPython gives `{ri}` [{why}]" + (f"; Lean model: {mprob}" if mprob else ""),
                                {"function": fn.name, "expr": fn.expr, "args": [enc_arg(a) for a in args], "opt": opt,
                                 "compiled": rc, "cpython": ri, "model": mo, "why": why})
-            elif mpred is not None and verdict == "same" and mpred != rc and not mprob:
+            elif mpred is not None and verdict == "same" and not mprob and \
+                    not (mpred == rc or (mpred == "exc * -" and rc.startswith("exc "))):
                 model_mismatch += 1
                 if model_mismatch <= 3:
-                    ctx.violation(f"correspondence broken: Lean model of {mo[0]} predicts `{mpred}` for {fn.name}{tuple(args)!r}, "
+                    ctx.violation(f"correspondence broken: Lean model of {mo[0]} predicts `{mpred}` for {fn.name}{show_args(args)}, "
                                   f"the compiled code (= CPython) gives `{rc}`",
                                   {"broken": "Gen/CFast.lean vs compiled harness", "function": fn.name, "args": [enc_arg(a) for a in args],
                                    "opt": opt, "model": mo, "compiled": rc}, found_input=False)
         if mprob and all(judge(fn, args, *results[o].get(i, ("missing - -", "missing - -")))[0] != "DIFF" for o in results):
             # the model contradicts Python, the compiled code does not: translator semantics or proof scope is off
             if model_problems <= 3:
-                ctx.violation(f"Lean model of {mo[0]} on {fn.name}{tuple(args)!r}: {mprob}; not reproduced by the compiled code",
+                ctx.violation(f"Lean model of {mo[0]} on {fn.name}{show_args(args)}: {mprob}; not reproduced by the compiled code",
                               {"broken": "Gen/CFast.lean (translator semantics) vs compiled harness", "function": fn.name,
                                "args": [enc_arg(a) for a in args], "model": mo}, found_input=False)
-    ctx.count("traces_validated_against_impl", len(model_out) * len(results))
+    ctx.count("traces_validated_against_impl", len(lines) * len(results))
     ctx.count("disagreements_checked", ndiff + model_problems)
     ctx.coverage["cases_compiled_vs_cpython"] = len(jobs) * len(results)
     ctx.coverage["cases_with_model_prediction"] = len(model_out)
@@ -573,7 +685,7 @@ def replay(ctx: Ctx, path: str) -> int:
         res = run_worker(ctx, d, [(0, fn.name, args)], "replay")
         ri, rcm = res[0]
         verdict, why = judge(fn, args, ri, rcm)
-        print(f"{fn.name}{tuple(args)!r} `{fn.expr}` opt={opt}: compiled `{rcm}`  CPython `{ri}`  -> {verdict} {why}")
+        print(f"{fn.name}{show_args(args)} `{fn.expr}` opt={opt}: compiled `{rcm}`  CPython `{ri}`  -> {verdict} {why}")
         if verdict == "DIFF":
             rc = 1
     return rc
